@@ -170,6 +170,29 @@ func VerifC19Sort(nmax, maxKeys, maxDigits int) {
 	vReach("sorted")
 }
 
+// VerifC19PortKey: the Port key on the whole port range. Two nodes whose ports have exactly nd
+// symbolic decimal digits (values up to 65535, leading zeros included): Port(a, b) is the
+// numeric comparison. (The three-node harness above bounds the digits more tightly in the
+// quick tier; boundaries such as 32767/32768 or 9999/10000 need five digits.)
+func VerifC19PortKey(nd int) {
+	mk := func(tag string) (*RawNode, int) {
+		digits := vSymString(tag+".port", nd)
+		port := 0
+		for i := 0; i < nd; i++ {
+			vAssume(digits[i] >= '0' && digits[i] <= '9')
+			port = port*10 + int(digits[i]-'0')
+		}
+		vAssume(port <= 65535)
+		return &RawNode{id: 1, addr: "127.0.0.1:" + digits, channel: &channel{}}, port
+	}
+	a, pa := mk("a")
+	b, pb := mk("b")
+	vAssert(Port(a, b) == (pa < pb), "C19.key-meaning.Port")
+	vAssert(Port(b, a) == (pb < pa), "C19.key-meaning.Port")
+	vReach("port-key")
+}
+
+func VerifC19PortKeyTwin(nd int)    { VerifC19PortKey(nd); vFail("C19.twin") }
 func VerifC19SWOTwin(maxDigits int) { VerifC19SWO(maxDigits); vFail("C19.twin") }
 func VerifC19LessTwin(maxKeys, maxDigits int) {
 	VerifC19Less(maxKeys, maxDigits)
